@@ -87,6 +87,23 @@ def h_diag_state(env, N):
         enc = z.value
         for i in range(N):
             env.goal('re-encoded_stabilizer[%d]' % i, b_and(arr_eq(enc.gs[i], gs[i]), eq(enc.ps[i], ps[i])))
+    # history: the same state object is changed in place (rotated) and diagonalized again
+    gg = env.bits('gen', (2 * N,))
+    pg = env.signs('gen_sign', (1,))[0]
+    up = env.run(lambda: state.rotate_by(M.pa.Pauli(gg.copy(), pg)))
+    env.goal('update_no_exception', b_not(up.raised))
+    now_g, now_p = snapshot(state.gs), snapshot(state.ps)
+    res2 = env.run(lambda: M.ci.diagonalize(state))
+    env.goal('second_no_exception', b_not(res2.raised))
+    if res2.value is not None:
+        work2 = M.st.StabilizerState(state.gs.copy(), ps=state.ps.copy()).set_r(0)
+        f2 = env.run(lambda: res2.value.forward(work2))
+        env.goal('second_forward_no_exception', b_not(f2.raised))
+        if f2.value is not None:
+            for i in range(N):
+                want = [0] * (2 * N)
+                want[2 * i + 1] = 1
+                env.goal('after_update_stabilizer[%d]_becomes_+Z%d' % (i, i), b_and(arr_eq(work2.gs[i], want), eq(work2.ps[i], 0)))
 
 
 def h_sbrg_general(env, N, coefs):
